@@ -38,7 +38,7 @@ struct St {
     g: Vec<PosGhost>,
 }
 
-fn spec(label: &str, enc: [Enc; 3], full_range: bool) -> StdSpec {
+fn spec(label: &str, enc: [Enc; 3], full_range: bool, start_tick: i32) -> StdSpec {
     let mut positions = vec![(-128, 128, false), (-128, 128, true), (128, 5696, false)];
     let mut arrays = vec![(-1, enc[0]), (0, enc[1]), (1, enc[2])];
     if full_range {
@@ -46,7 +46,7 @@ fn spec(label: &str, enc: [Enc; 3], full_range: bool) -> StdSpec {
         arrays.push((-79, Enc::Dynamic));
         arrays.push((78, Enc::Fixed));
     }
-    StdSpec { label: label.into(), tick_spacing: 64, fee_rate: 3000, protocol_fee_rate: 300, sqrt_price: stdworlds::P0, arrays, positions, t22_a: None, t22_b: None }
+    StdSpec { label: label.into(), tick_spacing: 64, fee_rate: 3000, protocol_fee_rate: 300, sqrt_price: whirlpool::math::sqrt_price_from_tick_index(start_tick), arrays, positions, t22_a: None, t22_b: None }
 }
 
 const NEAR_WRAP: u128 = u128::MAX - 1_000_000;
@@ -59,8 +59,8 @@ struct World {
 
 /// Roots: funded (accumulators at 0) and funded with both global accumulators preset just below 2^128 *before* any tick is
 /// initialised or liquidity exists (so every stored `outside`/checkpoint stays consistent and wrap-around happens inside the search).
-fn build(label: &str, enc: [Enc; 3], full_range: bool) -> World {
-    let s = spec(label, enc, full_range);
+fn build(label: &str, enc: [Enc; 3], full_range: bool, start_tick: i32) -> World {
+    let s = spec(label, enc, full_range, start_tick);
     let (l, w) = world::build_std(&s);
     let mut fund = vec![
         Op::Inc { pos: 0, liq: stdworlds::BIG, v2: false },
@@ -70,16 +70,27 @@ fn build(label: &str, enc: [Enc; 3], full_range: bool) -> World {
     if full_range {
         fund.push(Op::Inc { pos: 3, liq: 40_000_000, v2: true });
     }
-    let mut lw = l.clone();
-    lw.patch(&w.pool.addr, |d| {
-        d[decode::pool_off::FEE_GROWTH_A..decode::pool_off::FEE_GROWTH_A + 16].copy_from_slice(&NEAR_WRAP.to_le_bytes());
-        d[decode::pool_off::FEE_GROWTH_B..decode::pool_off::FEE_GROWTH_B + 16].copy_from_slice(&(NEAR_WRAP + 7).to_le_bytes());
-    });
+    let preset = |base: u128| {
+        let mut lw = l.clone();
+        lw.patch(&w.pool.addr, |d| {
+            d[decode::pool_off::FEE_GROWTH_A..decode::pool_off::FEE_GROWTH_A + 16].copy_from_slice(&base.to_le_bytes());
+            d[decode::pool_off::FEE_GROWTH_B..decode::pool_off::FEE_GROWTH_B + 16].copy_from_slice(&(base + 7).to_le_bytes());
+        });
+        lw
+    };
+    let lw = preset(NEAR_WRAP);
+    // far from zero in both directions: a missing or extra copy of the accumulator in any `outside` value is a huge error
+    let lm = preset((1u128 << 127) + 0x1234_5678_9abc_def0);
     // a root where liquidity is added after fees were already earned by others: later liquidity must not earn earlier fees
     let mut late = vec![Op::Inc { pos: 1, liq: stdworlds::BIG / 3, v2: true }, Op::Inc { pos: 2, liq: stdworlds::BIG, v2: false }];
     late.push(Op::Swap { a_to_b: false, exact_in: true, amount: 3_000_000, lim: Lim::None, v2: false });
     late.push(Op::Swap { a_to_b: true, exact_in: true, amount: 1_000_000, lim: Lim::None, v2: true });
-    let prefixes = vec![("funded".to_string(), l.clone(), fund.clone()), ("near-wrap".to_string(), lw, fund), ("late-liquidity".to_string(), l.clone(), late)];
+    let prefixes = vec![
+        ("funded".to_string(), l.clone(), fund.clone()),
+        ("near-wrap".to_string(), lw, fund.clone()),
+        ("mid-accumulator".to_string(), lm, fund),
+        ("late-liquidity".to_string(), l.clone(), late),
+    ];
     World { b: Built { name: label.into(), w, roots: vec![] }, prefixes }
 }
 
@@ -96,9 +107,19 @@ fn root_states(wd: &World, m: &M) -> Result<Vec<(String, St)>, String> {
 }
 
 fn worlds(thorough: bool) -> Vec<World> {
-    let mut v = vec![build("c07-dfd", [Enc::Dynamic, Enc::Fixed, Enc::Dynamic], false)];
+    let mut first = build("c07-dfd", [Enc::Dynamic, Enc::Fixed, Enc::Dynamic], false, 0);
+    if !thorough {
+        first.prefixes.retain(|p| p.0 != "mid-accumulator");
+    }
+    let mut v = vec![first];
+    // the pool starts exactly on the shared bound 128, so that bound is first initialised while tick_current == tick
+    // (the `current >= tick` convention for a new tick's outside value matters only then, and only with non-zero accumulators)
+    let mut on = build("c07-onbound", [Enc::Fixed, Enc::Dynamic, Enc::Fixed], false, 128);
+    on.prefixes.retain(|p| p.0 == "mid-accumulator");
+    v.push(on);
     if thorough {
-        v.push(build("c07-fdf-full", [Enc::Fixed, Enc::Dynamic, Enc::Fixed], true));
+        v.push(build("c07-fdf-full", [Enc::Fixed, Enc::Dynamic, Enc::Fixed], true, 0));
+        v.push(build("c07-onbound-lower", [Enc::Dynamic, Enc::Dynamic, Enc::Fixed], false, -128));
     }
     v
 }
